@@ -63,6 +63,9 @@ p_ipc_unix_get_temp_dir (void)
 		return p_strdup ("/tmp/");
 #endif /* P_tmpdir */
 
+	if (P_UNLIKELY (str == NULL))
+		return NULL;
+
 	/* Now we need to ensure that we have only the one trailing slash */
 	len = strlen (str);
 	while (*(str + --len) == '/')
@@ -77,6 +80,8 @@ p_ipc_unix_get_temp_dir (void)
 
 	strcpy (ret, str);
 	strcat (ret, "/");
+
+	p_free (str);
 
 	return ret;
 }
@@ -156,7 +161,10 @@ p_ipc_get_platform_key (const pchar *name, pboolean posix)
 		strcpy (path_name, "/");
 		strncat (path_name, hash_str, 13);
 	} else {
-		tmp_path = p_ipc_unix_get_temp_dir ();
+		if (P_UNLIKELY ((tmp_path = p_ipc_unix_get_temp_dir ()) == NULL)) {
+			p_free (hash_str);
+			return NULL;
+		}
 
 		/* tmp dir + filename + zero symbol */
 		path_name = p_malloc0 (strlen (tmp_path) + strlen (hash_str) + 1);
